@@ -19,8 +19,10 @@ ASSUMPTIONS = [
     "str.isspace / \\s / \\d tables are those of the running interpreter (GenUri.ws_table, dzero_table)",
     "Python str/int equality and hashing: equal values have equal hashes; hash of a frozenset is order-independent; a plain set is unhashable",
     "the iteration order of a Python set is not modelled: it is observed per case and the theorems quantify over all orders",
-    "serializer round trips, Proxy.__getstate__/__setstate__ and NameServer.register/lookup are checked by the Python oracle only "
-    "(the model covers them through str()/URI(): both paths carry the text form or the state tuple)",
+    "serializer round trips and Proxy.__getstate__/__setstate__ are checked by the Python oracle only (the model covers them through "
+    "str()/URI() and to_state/of_state: both paths carry the text form or the state tuple; that a serializer returns the tuple's values "
+    "unchanged is C01's statement); NameServer histories are compared with the map model (ns_run) on every storage backend",
+    "the name server's own entry Pyro.NameServer (protected from removal) is not used as a name in the store histories",
 ]
 IMPORTS = "From V Require Import Model.Uri Gen.GenUri Harness.Cmp Harness.H19."
 OPEN_CAUSES = ("meta-empty-tag", "meta-at-tag", "host-dot-slash-u")
@@ -145,26 +147,30 @@ def run_impl(case, tree="/repo", deep=True):
         return o
     # serializers / proxy state / name server (oracle only)
     from Pyro5 import serializers, client
-    port = o["p_state"]["loc"][2] if o["p_state"]["loc"][0] == "host" else 0
     o["ser"] = {}
     o["proxy"] = {}
-    small = -(2 ** 63) <= port < 2 ** 63
+
+    def ser_result(w):
+        if not isinstance(w, core.URI):
+            return {"res": "not-a-uri"}
+        try:
+            wst = state_of(w)
+        except Unexpected:
+            wst = None
+        return {"res": "ok", "eq": bool(w == u), "str": str(w), "objtype": type(w.object).__name__, "state": wst}
     for name in ("serpent", "json", "marshal", "msgpack"):
         ser = serializers.serializers[name]
-        if name == "msgpack" and not small:
-            continue
         try:
-            w = ser.loads(ser.dumps(u))
-            if not isinstance(w, core.URI):
-                o["ser"][name] = {"res": "not-a-uri"}
-            else:
-                try:
-                    wst = state_of(w)
-                except Unexpected:
-                    wst = None
-                o["ser"][name] = {"res": "ok", "eq": bool(w == u), "str": str(w), "objtype": type(w.object).__name__, "state": wst}
+            o["ser"][name] = ser_result(ser.loads(ser.dumps(u)))
         except BaseException as x:
             o["ser"][name] = {"res": "raised " + type(x).__name__}
+        # the call path (URI as positional and keyword argument of a remote call)
+        try:
+            _obj, _meth, args, kwargs = ser.loadsCall(ser.dumpsCall("obj", "meth", (u,), {"k": u}))
+            ra, rk = ser_result(args[0]), ser_result(kwargs["k"])
+            o["ser"][name + "/call"] = ra if ra.get("res") != "ok" or not ra["eq"] or ra["state"] != o["p_state"] else rk
+        except BaseException as x:
+            o["ser"][name + "/call"] = {"res": "raised " + type(x).__name__}
     try:
         p = client.Proxy(u)
     except BaseException as x:
@@ -354,6 +360,9 @@ NOT_INT_WS = ["\x1c", "\x1d", "\x1f", "\u200b", "\x00"]
 BAD_PORTS = ["0x1F", "1.0", "1e3", "1__0", "_1", "1_", "- 1", "+-1", "--1", "٣x", "5 5", "½", "²", "5\x1c", "\x1c5", "١_", "5:6", "abc",
              "+", "-", " ", "1,000", "0b1", "٣ ٣", "5\x00", "1_ 0", "５．", "\u200b5", "5@6", "5\n"]
 PORT_VALUES = [0, 1, 5, 7, 9, 10, 80, 443, 9090, 9091, 55, 65535, 65536, 99999, 2 ** 31, 2 ** 63 - 1, 10 ** 25, -1, -5, -9090]
+# the URI parser accepts any int() port: the whole integer range, around every width boundary, both signs
+WIDE_PORTS = sorted({sg * (2 ** k + d) for k in (7, 8, 15, 16, 31, 32, 63, 64, 65, 127, 128, 200) for d in (-1, 0, 1) for sg in (1, -1)}
+                    | {10 ** 19, -10 ** 19, 10 ** 25, -10 ** 25, 10 ** 60, -10 ** 60, -2 ** 63 - 2 ** 40, -255 * 2 ** 64})
 SPECIALS = list(":@,[]./u%_+- \n\t0٣\x1c") + ["./u:", "@@", "::", "\n"]
 
 
@@ -429,7 +438,9 @@ def gen_spec(rng):
         elif p < 0.32:
             spec["loc"]["port"] = ("bad", rng.choice(BAD_PORTS))
         else:
-            spec["loc"]["port"] = ("val", rng.choice(PORT_VALUES) if rng.random() < 0.8 else rng.randint(-70000, 70000))
+            r3 = rng.random()
+            spec["loc"]["port"] = ("val", rng.choice(PORT_VALUES) if r3 < 0.62 else rng.choice(WIDE_PORTS) if r3 < 0.82
+                                   else rng.randint(-70000, 70000) if r3 < 0.94 else rng.choice([1, -1]) * rng.getrandbits(rng.choice([64, 70, 96, 130])))
     return spec
 
 
@@ -711,6 +722,223 @@ def execute(ctx, cases, model_ok, res, with_oracle=True, deep=True):
     return res
 
 
+# ---------------------------------------------------------------- name-server store histories (every storage backend)
+BACKENDS = ("memory", "sql")
+STORE_NAMES = ["n", "obj.a", "Pyro.Other", "x/y", "ü", "N", "n2", "a b"]
+_TMP = {}
+
+
+def store_tmpdir():
+    import atexit, shutil, tempfile
+    if "d" not in _TMP:
+        _TMP["d"] = tempfile.mkdtemp(prefix="C19_store_")
+        atexit.register(shutil.rmtree, _TMP["d"], True)
+    return _TMP["d"]
+
+
+def run_store(case, tree="/repo"):
+    """play the history on a NameServer over the named storage backend; -> list of observations"""
+    import os, tempfile
+    from Pyro5 import nameserver as nsmod, core, errors
+    path = None
+    if case["backend"] == "sql":
+        fd, path = tempfile.mkstemp(prefix="ns_", suffix=".sqlite", dir=store_tmpdir())
+        os.close(fd)
+        os.unlink(path)
+
+    def open_ns():
+        return nsmod.NameServer(nsmod.SqlStorage(path)) if path else nsmod.NameServer()
+    obs = []
+    try:
+        ns = open_ns()
+        for op in case["ops"]:
+            try:
+                if op[0] == "reg":
+                    _, name, text, tagged, as_obj = op
+                    arg, eff, is_obj = text, text, False
+                    if as_obj:
+                        try:
+                            arg = core.URI(text)
+                            eff, is_obj = str(arg), True
+                        except errors.PyroError:
+                            arg = text
+                    try:
+                        ns.register(name, arg, safe=False, metadata={"m"} if tagged else None)
+                        obs.append(["reg", "ok", eff, is_obj])
+                    except errors.NamingError as x:
+                        obs.append(["other", "register raised NamingError %s" % x])
+                    except errors.PyroError:
+                        obs.append(["reg", "rejected", eff, is_obj])
+                elif op[0] == "del":
+                    obs.append(["del", int(ns.remove(op[1]))])
+                elif op[0] == "lookup":
+                    try:
+                        w = ns.lookup(op[1])
+                        obs.append(["lookup", state_of(w)])
+                    except errors.NamingError:
+                        obs.append(["lookup", None])
+                    except errors.PyroError:
+                        obs.append(["lookup", "unparseable"])     # the stored text is not accepted by URI()
+                elif op[0] in ("list", "yp"):
+                    d = ns.list(return_metadata=False) if op[0] == "list" else ns.yplookup(meta_any={"m"}, return_metadata=False)
+                    obs.append([op[0], sorted([k, str(v)] for k, v in d.items())])
+                elif op[0] == "reopen":
+                    if path:
+                        ns.storage.close()
+                        ns = open_ns()
+                    obs.append(["reopen"])
+            except Unexpected as x:
+                obs.append(["other", "state " + str(x)])
+            except BaseException as x:
+                obs.append(["other", "%s raised %s: %s" % (op[0], type(x).__name__, str(x)[:80])])
+    finally:
+        if path:
+            for ext in ("", "-journal", "-wal", "-shm"):
+                try:
+                    os.unlink(path + ext)
+                except OSError:
+                    pass
+    return obs
+
+
+def oracle_store(case, obs):
+    """the store is a map name -> uri: what lookup / list / yplookup return is what was registered last under that name"""
+    from Pyro5 import core
+    bad, ref = [], {}
+    where = "backend %s" % case["backend"]
+    for i, (op, ob) in enumerate(zip(case["ops"], obs)):
+        if ob[0] == "other":
+            bad.append(("unexpected-exception", "name server history step %d on %s: %s" % (i, where, ob[1])))
+            break
+        if op[0] == "reg":
+            kind, _ = try_parse(ob[2])
+            if (ob[1] == "ok") != (kind == "ok" or ob[3]):      # a URI object is stored as its text form, unchecked
+                bad.append(("nameserver-store-differs", "step %d on %s: register(%r, %r) was %s although URI() %s it" % (
+                    i, where, op[1], ob[2], ob[1], "accepts" if kind == "ok" else "rejects")))
+            if ob[1] == "ok":
+                ref[op[1]] = (ob[2], bool(op[3]))
+        elif op[0] == "del":
+            exp = 1 if op[1] in ref else 0
+            ref.pop(op[1], None)
+            if ob[1] != exp:
+                bad.append(("nameserver-store-differs", "step %d on %s: remove(%r) returned %r, expected %r" % (i, where, op[1], ob[1], exp)))
+        elif op[0] == "lookup":
+            exp = None
+            if op[1] in ref:
+                try:
+                    exp = state_of(core.URI(ref[op[1]][0]))
+                except BaseException:
+                    exp = "unparseable"
+            if ob[1] != exp:
+                bad.append(("nameserver-store-differs", "step %d on %s: lookup(%r) gives %r but the uri registered last under that name is %r" % (
+                    i, where, op[1], ob[1], ref.get(op[1], (None,))[0])))
+        elif op[0] in ("list", "yp"):
+            exp = sorted([k, v[0]] for k, v in ref.items() if op[0] == "list" or v[1])
+            if ob[1] != exp:
+                bad.append(("nameserver-store-differs", "step %d on %s: %s returns %r, the registrations are %r" % (
+                    i, where, "list()" if op[0] == "list" else "yplookup(meta_any={'m'})", ob[1][:6], exp[:6])))
+    seen, out = set(), []
+    for sig, what in bad:
+        if sig not in seen:
+            seen.add(sig)
+            out.append((sig, what))
+    return out
+
+
+def c_scase(case, obs, ns_port):
+    ops, outs = [], []
+    for op, ob in zip(case["ops"], obs):
+        if op[0] == "reg":
+            ops.append("SReg %s %s %s %s" % (ctext(op[1]), ctext(ob[2]), cbool(bool(op[3])), cbool(not ob[3])))
+            outs.append("ORegOk" if ob[1] == "ok" else "ORegRejected")
+        elif op[0] == "del":
+            ops.append("SDel %s" % ctext(op[1]))
+            outs.append("ODel %s" % cN(ob[1]))
+        elif op[0] == "lookup":
+            ops.append("SLookup %s" % ctext(op[1]))
+            outs.append("OLookupBad" if ob[1] == "unparseable" else "OLookup %s" % c_uri(ob[1]))
+        elif op[0] in ("list", "yp"):
+            ops.append("SList" if op[0] == "list" else "SYp")
+            outs.append("OListing %s" % clist(["(%s, %s)" % (ctext(k), ctext(v)) for k, v in ob[1]]))
+        else:
+            ops.append("SReopen")
+            outs.append("ONone")
+    return "{| sc_ns := %s; sc_ops := %s; sc_obs := %s |}" % (cZ(ns_port), clist(ops), clist(outs))
+
+
+def gen_store_cases(ctx, ns_port=9090):
+    """histories over a few names so that overwrites (register an already registered name, safe=False), removals and
+    re-registrations are frequent; every history is played on every backend"""
+    rng = ctx.rng
+    out = []
+    for _ in range(ctx.n(110, 1400)):
+        names = rng.sample(STORE_NAMES, rng.choice([1, 2, 3, 4]))
+        ops = []
+        for _ in range(rng.randint(3, 12)):
+            r = rng.random()
+            if r < 0.45 or not ops:
+                text = render(rng, gen_spec(rng))
+                if rng.random() < 0.1:
+                    text = edit_string(rng, text)
+                if len(text) > 200:
+                    continue
+                ops.append(["reg", rng.choice(names), text, rng.random() < 0.4, rng.random() < 0.5])
+            elif r < 0.68:
+                ops.append(["lookup", rng.choice(names)])
+            elif r < 0.78:
+                ops.append(["list"])
+            elif r < 0.86:
+                ops.append(["yp"])
+            elif r < 0.93:
+                ops.append(["del", rng.choice(names)])
+            else:
+                ops.append(["reopen"])
+        ops += [["lookup", n] for n in names] + [["reopen"], ["list"], ["yp"]] + [["lookup", n] for n in names[:2]]
+        for b in BACKENDS:
+            out.append({"kind": "store", "backend": b, "ops": ops})
+    return out
+
+
+def targeted_store():
+    a, b, c = "PYRO:first@host.a:1", "PYRO:second@host.b:2", "PYRONAME:third@[::1]"
+    hist = [
+        [["reg", "n", a, False, False], ["reg", "n", b, False, False], ["lookup", "n"], ["list"], ["reopen"], ["lookup", "n"], ["list"]],
+        [["reg", "n", a, True, True], ["reg", "n", b, True, True], ["lookup", "n"], ["yp"], ["reopen"], ["yp"], ["lookup", "n"]],
+        [["reg", "n", a, True, False], ["reg", "m", c, False, True], ["reg", "n", c, False, True], ["yp"], ["list"], ["del", "n"], ["lookup", "n"],
+         ["reg", "n", b, True, False], ["lookup", "n"], ["reopen"], ["list"], ["yp"]],
+        [["reg", "n", a, False, False], ["reg", "n", "PYRO:bad", False, False], ["lookup", "n"], ["del", "zz"], ["list"]],
+    ]
+    return [{"kind": "store", "backend": bk, "ops": h} for h in hist for bk in BACKENDS]
+
+
+def execute_store(ctx, cases, model_ok, res, with_oracle=True):
+    from Pyro5 import config
+    lits, kept = [], []
+    for case in cases:
+        obs = run_store(case, ctx.tree)
+        res.seen(case, True)
+        res.count("store:" + case["backend"])
+        res.count("store_ops", len(case["ops"]))
+        seen_names = set()
+        for op in case["ops"]:
+            if op[0] == "reg":
+                res.count("store_overwrite" if op[1] in seen_names else "store_first_registration")
+                seen_names.add(op[1])
+        if with_oracle:
+            for sig, what in oracle_store(case, obs):
+                res.violations.append({"signature": sig, "what": what, "case": case})
+        if any(ob[0] == "other" for ob in obs) or len(obs) != len(case["ops"]):
+            res.mismatches.append({"component": "C19-store", "case": case, "impl": obs[-3:], "model": "no such outcome"})
+            continue
+        lits.append(c_scase(case, obs, config.NS_PORT))
+        kept.append((case, obs))
+    if model_ok:
+        for idx in vlib.run_cases(ctx, "s", IMPORTS, "scase", "check_scase", lits):
+            case, obs = kept[idx]
+            res.mismatches.append({"component": "C19-store", "case": case, "impl": obs})
+    return res
+
+
 def gen_info(ctx):
     from tools.gen import gen
     st = gen.regenerate(ctx.tree, only=["GenUri"])["GenUri"]
@@ -720,8 +948,11 @@ def gen_info(ctx):
 def run(ctx, model_ok=True):
     res = vlib.Result()
     info = gen_info(ctx)
-    cases = vlib.load_corpus(PROP) + targeted(info) + gen_cases(ctx, info.get("ns_port", 9090))
+    corpus = vlib.load_corpus(PROP)
+    cases = [c for c in corpus if c.get("kind") != "store"] + targeted(info) + gen_cases(ctx, info.get("ns_port", 9090))
     execute(ctx, cases, model_ok, res)
+    scases = [c for c in corpus if c.get("kind") == "store"] + targeted_store() + gen_store_cases(ctx, info.get("ns_port", 9090))
+    execute_store(ctx, scases, model_ok, res)
     res.rule = ("seeded grammar-based strings: protocol in random letter case (and near-miss protocol words), objects with @ , : [ "
                 "punctuation / tag lists with empty, duplicate and @ tags, locations = hostnames, IPv4, bracketed IPv6 (valid and broken), "
                 "empty host, ./u: sockets, ports spelled with signs, zero padding, underscores, surrounding whitespace, digits of other "
@@ -730,7 +961,11 @@ def run(ctx, model_ok=True):
                 "a variant differing in exactly one respect that must make it unequal (letter case of host/object/tag/socket name, one "
                 "character, port +-1, default vs other port, trailing dot, tag added/removed: 48%), a one-component replacement or a random edit; "
                 "plus all pairs of a 22-string pool; on each pair: == iff all state fields equal, == implies equal hash, symmetry, != is not ==; "
-                "non-trivial = accepted with a location or a tag set; distinct = distinct (s, s2) hash")
+                "ports from the whole integer range (around every width boundary up to 2**200, both signs) through every serializer "
+                "(plain and call path), the proxy state and the name server; name-server histories (register incl. overwriting a registered "
+                "name, as string and as URI object, with/without metadata; remove; lookup; list; yplookup; reopen) over a few names on every "
+                "storage backend (memory, sqlite file) compared with the map model; "
+                "non-trivial = accepted with a location or a tag set, or a store history; distinct = distinct case hash")
     res.samples = cases[-3:] + cases[:2]
     return res
 
@@ -738,7 +973,12 @@ def run(ctx, model_ok=True):
 def search(ctx, broken):
     res = vlib.Result()
     info = gen_info(ctx)
-    cases = [b["case"] for b in broken if b.get("case")] + vlib.load_corpus(PROP) + targeted(info) + gen_cases(ctx, info.get("ns_port", 9090))
+    allc = [b["case"] for b in broken if b.get("case")] + vlib.load_corpus(PROP)
+    for case in [c for c in allc if c.get("kind") == "store"] + targeted_store() + gen_store_cases(ctx, info.get("ns_port", 9090)):
+        res.seen(case)
+        for sig, what in oracle_store(case, run_store(case, ctx.tree)):
+            res.violations.append({"signature": sig, "what": what, "case": case})
+    cases = [c for c in allc if c.get("kind") != "store"] + targeted(info) + gen_cases(ctx, info.get("ns_port", 9090))
     for case in cases:
         o = run_impl(case, ctx.tree, deep=False)
         res.seen(case)
@@ -748,6 +988,18 @@ def search(ctx, broken):
 
 
 def replay(ctx, case):
+    if case.get("kind") == "store":
+        obs = run_store(case, ctx.tree)
+        bad = oracle_store(case, obs)
+        if bad:
+            return True, {"oracle": bad, "impl": obs}
+        res = vlib.Result()
+        execute_store(ctx, [case], True, res, with_oracle=False)
+        if res.mismatches:
+            from Pyro5 import config
+            model = vlib.eval_model(ctx, IMPORTS, "model_store (%s)" % c_scase(case, obs, config.NS_PORT))
+            return True, {"mismatch": True, "impl": obs, "model": model[-2500:]}
+        return False, {"impl": obs}
     o = run_impl(case, ctx.tree)
     bad = oracle(case, o)
     if bad:
